@@ -55,6 +55,21 @@ pub struct Plan {
     /// scope text the client puts into its string-to-sign when that is not the text after the
     /// first '/' of the credential it sends
     pub sts_scope_override: Option<String>,
+    /// nanoseconds of the request instant beyond `t` (written out in `date_text`); the server time
+    /// of `build` is counted from `t` plus this fraction
+    pub t_frac_ns: u32,
+    /// absolute-form request target: (scheme, authority) written in front of the path
+    pub target: Option<(String, String)>,
+    /// empty query components on the wire: (how many '&', where: 0 in front, 1 in place of the
+    /// first separator, 2 at the end).  They are no parameters: nothing signed changes.
+    pub empty_components: Option<(usize, u8)>,
+    /// empty / blank elements in the parameter list of the Authorization header (pattern number;
+    /// 0 = none).  They are no parameters either.
+    pub auth_empty_elements: u8,
+    /// a form body that starts with the escaped UTF-8 byte-order mark is sent with the three bytes raw
+    pub raw_bom: bool,
+    /// name of the round-3 input class `covering_plan` worked into this plan ("" = none)
+    pub twist: &'static str,
 }
 
 pub const SEG_POOL: [&[u8]; 40] = [
@@ -179,7 +194,13 @@ pub fn random_plan(rng: &mut Rng) -> Plan {
     let s3 = rng.chance(1, 3);
     let fold = rng.chance(1, 3);
     let form = fold && rng.chance(3, 4) || rng.chance(1, 12);
-    let method = rng.pick(&["GET", "POST", "PUT", "DELETE", "HEAD", "PATCH", "OPTIONS"][..]).to_string();
+    // (the standard methods, and at a lower rate TRACE, extension methods and other letter cases: the method is an
+    // opaque, case-sensitive token of the canonical request and has no bearing on anything else)
+    let method = if rng.chance(1, 6) {
+        rng.pick(&["TRACE", "PROPFIND", "M-SEARCH", "BREW", "get", "post", "Post", "QUERY", "PURGE", "CONNECT"][..]).to_string()
+    } else {
+        rng.pick(&["GET", "POST", "PUT", "DELETE", "HEAD", "PATCH", "OPTIONS"][..]).to_string()
+    };
     let nseg = rng.below(5) as usize;
     let mut segments = Vec::new();
     for _ in 0..nseg {
@@ -369,6 +390,12 @@ pub fn random_plan(rng: &mut Rng) -> Plan {
         raw_key_override: None,
         extra_date,
         sts_scope_override: None,
+        t_frac_ns: 0,
+        target: None,
+        empty_components: None,
+        auth_empty_elements: 0,
+        raw_bom: false,
+        twist: "",
     }
 }
 
@@ -431,7 +458,240 @@ pub fn covering_plan(rng: &mut Rng, i: usize) -> Plan {
         1 => p.extra_date = None,
         _ => {}
     }
+    // the round-3 input classes, each at a low rate (about a third of the plans carry one)
+    let sel = (i * 11 + i / 16) % 40;
+    if sel < N_TWISTS {
+        twist(&mut p, rng, sel);
+    }
     p
+}
+
+pub const N_TWISTS: usize = 14;
+
+/// Host header values a client may send (and then signs as sent): ports, IPv6 literals, a trailing dot, upper case.
+pub const HOST_VALUES: [&str; 18] = [
+    "example.amazonaws.com:443", "example.amazonaws.com:80", "example.amazonaws.com:8443", "example.amazonaws.com:0", "example.amazonaws.com:", "[::1]", "[::1]:443",
+    "[2001:db8::1]:80", "example.amazonaws.com.", "example.amazonaws.com.:443", "EXAMPLE.AMAZONAWS.COM", "Example.Amazonaws.Com:443", "localhost:80", "127.0.0.1:443",
+    "example.amazonaws.com:00443", "example.amazonaws.com:443:80", ":443", "xn--exmple-cua.amazonaws.com:80",
+];
+
+/// Parameter names that mean something to AWS services and SDKs but nothing to SigV4 validation: ordinary, signed
+/// parameters.  The last five are authentication parameter names, ordinary on the header carrier only.
+pub const ECOSYSTEM_PARAMS: [(&str, &str); 19] = [
+    ("X-Amz-Expires", "60"), ("X-Amz-Expires", "0"), ("X-Amz-Expires", "-5"), ("X-Amz-Expires", "604800"), ("X-Amz-Expires", "900"), ("X-Amz-Expires", ""), ("X-Amz-Expires", "1"),
+    ("X-Amz-Content-Sha256", "UNSIGNED-PAYLOAD"), ("X-Amz-User-Agent", "aws-sdk-js/2.0"), ("X-Amz-Target", "Svc.Op"), ("Action", "GetCallerIdentity"), ("Version", "2011-06-15"),
+    ("X-Amz-Expires", "86400"), ("x-amz-expires", "604800"),
+    ("X-Amz-SignedHeaders", "host"), ("X-Amz-Credential", "OTHERKEY/20150830/us-east-1/service/aws4_request"), ("X-Amz-Date", "20110909T233600Z"), ("X-Amz-Signature", "0000"), ("X-Amz-Security-Token", "tokZ"),
+];
+
+/// A fraction of a second as it is written (after '.' or ',') and its value in nanoseconds.
+pub const FRACTIONS: [(&str, u32); 8] = [("5", 500_000_000), ("7", 700_000_000), ("999999999", 999_999_999), ("4", 400_000_000), ("50", 500_000_000), ("9999999999", 999_999_999), ("500000001", 500_000_001), ("499999999", 499_999_999)];
+
+/// Last seconds of a UTC day: an ordinary day, a month, a year, a leap day, 28 February with and without a 29th.
+pub fn day_ends() -> Vec<i64> {
+    use signer::days_from_civil as d;
+    [(2015, 8, 30), (2015, 9, 30), (2015, 12, 31), (2016, 2, 29), (2015, 2, 28), (2016, 2, 28), (1999, 12, 31), (2024, 12, 31), (2100, 2, 28), (2038, 1, 18)].iter().map(|(y, m, dd)| d(*y, *m, *dd) * 86400 + 86399).collect()
+}
+
+/// `t` (+ fraction) written in basic (0), extended (1) or +05:30 extended (2) form with the fraction digits given.
+pub fn render_fraction(t: i64, digits: &str, form: u8) -> String {
+    let sep = if form == 0 && digits.len() % 2 == 0 { ',' } else { '.' };
+    match form {
+        0 => {
+            let c = signer::compact_utc(t);
+            format!("{}{}{}Z", &c[..15], sep, digits)
+        }
+        1 => {
+            let c = signer::compact_utc(t);
+            format!("{}-{}-{}T{}:{}:{}{}{}Z", &c[..4], &c[4..6], &c[6..8], &c[9..11], &c[11..13], &c[13..15], sep, digits)
+        }
+        _ => {
+            let c = signer::compact_utc(t + 330 * 60);
+            format!("{}-{}-{}T{}:{}:{}{}{}+05:30", &c[..4], &c[4..6], &c[6..8], &c[9..11], &c[11..13], &c[13..15], sep, digits)
+        }
+    }
+}
+
+/// Work one of the round-3 input classes into a plan.  None of them changes what must happen to
+/// the reference-signed request: it is accepted.
+pub fn twist(p: &mut Plan, rng: &mut Rng, sel: usize) {
+    let counts = [33usize, 64, 256, 1024, 1025, 4096];
+    match sel {
+        0 => {
+            // 40-200 parameters over a few names: every name repeated with different values
+            let n = *rng.pick(&[40usize, 64, 65, 100, 129, 200][..]);
+            let mut names: Vec<Vec<u8>> = p.url_query.iter().map(|kv| kv.0.clone()).filter(|k| !k.starts_with(b"X-Amz-") && !k.starts_with(b"x-amz-")).take(2).collect();
+            names.push(b"tag".to_vec());
+            names.push(rng.pick(&[&b"a"[..], b"", b"a b", b"tag.2", b"\xc3\xa9"][..]).to_vec());
+            for j in 0..n {
+                let name = rng.pick(&names[..]).clone();
+                let value = if rng.chance(1, 6) { rng.pick(&VALUE_POOL[..]).to_vec() } else { format!("{:03}", (j * 37 + n) % 211).into_bytes() };
+                p.url_query.push((name, value));
+            }
+            p.twist = "many_pairs";
+        }
+        1 => {
+            p.empty_components = Some((*rng.pick(&counts[..]), rng.below(3) as u8));
+            p.twist = "empty_components";
+        }
+        2 => {
+            let limit = if p.query_carrier { ECOSYSTEM_PARAMS.len() - 5 } else { ECOSYSTEM_PARAMS.len() };
+            for _ in 0..(1 + rng.below(2)) {
+                let (k, v) = ECOSYSTEM_PARAMS[rng.below(limit as u64) as usize];
+                p.url_query.push((k.as_bytes().to_vec(), v.as_bytes().to_vec()));
+            }
+            p.twist = "ecosystem_parameters";
+        }
+        3 => {
+            let h: &str = *rng.pick(&HOST_VALUES[..]);
+            for hv in p.headers.iter_mut() {
+                if hv.0 == "host" {
+                    hv.1 = h.as_bytes().to_vec();
+                }
+            }
+            p.twist = "host_value";
+        }
+        4 | 5 => {
+            // an absolute-form target; no Host header at all (4) or an unsigned one (5); the client lists `:authority`,
+            // or (4 only) `host`, for which there is then no header line
+            let authority: &str = *rng.pick(&["example.amazonaws.com", "example.amazonaws.com:443", "other.example.org", "EXAMPLE.amazonaws.com"][..]);
+            if sel == 4 || rng.chance(1, 2) {
+                p.target = Some((rng.pick(&["https", "http"][..]).to_string(), authority.to_string()));
+            }
+            if sel == 4 {
+                p.headers.retain(|h| h.0 != "host");
+            }
+            if sel == 5 || rng.chance(1, 2) {
+                for sname in p.signed.iter_mut() {
+                    if sname == "host" {
+                        *sname = ":authority".to_string();
+                    }
+                }
+            }
+            p.twist = if sel == 4 { "no_host_header" } else { "authority_signed" };
+        }
+        6 => {
+            // authentication inputs of the other carrier: ordinary headers / ordinary parameters
+            if p.query_carrier {
+                let other_date = signer::compact_utc(p.t - 7200).into_bytes();
+                let pool: [(&str, Vec<u8>); 7] = [
+                    ("x-amz-security-token", b"tokH".to_vec()),
+                    ("x-amz-security-token", b"".to_vec()),
+                    ("x-amz-date", other_date.clone()),
+                    ("date", other_date),
+                    ("x-amz-credential", b"OTHERKEY/20150830/us-east-1/service/aws4_request".to_vec()),
+                    ("x-amz-signature", vec![b'0'; 64]),
+                    ("x-amz-signedheaders", b"host;x-other".to_vec()),
+                ];
+                for _ in 0..(1 + rng.below(2)) {
+                    let (n, v) = rng.pick(&pool[..]).clone();
+                    if p.headers.iter().any(|h| h.0 == n) {
+                        continue;
+                    }
+                    p.headers.push((n.to_string(), v));
+                    if rng.chance(1, 2) {
+                        p.signed.push(n.to_string());
+                    }
+                }
+            } else {
+                for _ in 0..(1 + rng.below(2)) {
+                    let (k, v) = ECOSYSTEM_PARAMS[ECOSYSTEM_PARAMS.len() - 1 - rng.below(5) as usize];
+                    p.url_query.push((k.as_bytes().to_vec(), v.as_bytes().to_vec()));
+                }
+            }
+            p.twist = "cross_carrier";
+        }
+        7 => {
+            if p.query_carrier {
+                p.empty_components = Some((*rng.pick(&[1usize, 2, 33, 1025][..]), rng.below(3) as u8));
+                p.twist = "empty_components";
+            } else {
+                p.auth_empty_elements = 1 + rng.below(15) as u8;
+                p.twist = "auth_empty_elements";
+            }
+        }
+        8 => {
+            let ends = day_ends();
+            p.t = *rng.pick(&ends[..]);
+            let (digits, ns) = *rng.pick(&FRACTIONS[..]);
+            p.t_frac_ns = ns;
+            p.date_text = Some(render_fraction(p.t, digits, rng.below(3) as u8));
+            p.twist = "fraction_at_day_end";
+        }
+        9 => {
+            // a byte-order mark is data: part of the first parameter name of a folded form, or of the hashed body
+            if p.form {
+                let v = rng.pick(&VALUE_POOL[..]).to_vec();
+                p.body_query.insert(0, (b"\xef\xbb\xbfa".to_vec(), v));
+                p.raw_bom = rng.chance(2, 3);
+                for h in p.headers.iter_mut() {
+                    if h.0 == "content-length" {
+                        h.1 = wire_body_len(&p.body_query, p.raw_bom).to_string().into_bytes();
+                    }
+                }
+            } else {
+                let mut b = rng.pick(&[&b"\xef\xbb\xbf"[..], b"\xff\xfe", b"\xfe\xff"][..]).to_vec();
+                b.extend(p.body.iter());
+                p.body = b;
+                p.headers.retain(|h| h.0 != "content-length" && h.0 != "content-md5" && h.0 != "x-amz-content-sha256");
+                p.signed.retain(|h| h != "content-length" && h != "content-md5" && h != "x-amz-content-sha256");
+            }
+            p.twist = "bom_body";
+        }
+        10 => {
+            // quoting and empty parameters in Content-Type where they change nothing: the media type is not the
+            // form type, or the parameter is not a charset parameter
+            if p.form {
+                let tail: &str = *rng.pick(&[";;", "; =x", "; =", ";", "; \"charset\"=x", "; x=\"", "; boundary=\"a;b\""][..]);
+                for h in p.headers.iter_mut() {
+                    if h.0 == "content-type" && !h.1.windows(7).any(|w| w.eq_ignore_ascii_case(b"charset")) {
+                        h.1.extend(tail.as_bytes());
+                    }
+                }
+            } else {
+                let ct: &str = *rng.pick(&["text/plain; charset=\"utf-8\"", "application/json; charset=\"", "text/plain; charset=\"\"", "text/xml; charset='utf-8'", "\"", "text/plain; charset==", "=", ";", "application/x-www-form-urlencoded2; charset=\"", "\"application/x-www-form-urlencoded\""][..]);
+                p.headers.retain(|h| h.0 != "content-type");
+                p.headers.push(("content-type".to_string(), ct.as_bytes().to_vec()));
+                if !p.signed.contains(&"content-type".to_string()) && rng.chance(1, 2) {
+                    p.signed.push("content-type".to_string());
+                }
+            }
+            p.twist = "content_type_quoting";
+        }
+        11 => {
+            let n = *rng.pick(&[33usize, 64, 100, 256][..]);
+            let every = 1 + rng.below(4) as usize;
+            for j in 0..n {
+                let name = format!("x-h-{:04}", j);
+                p.headers.push((name.clone(), format!("v {}", j).into_bytes()));
+                if j % every == 0 {
+                    p.signed.push(name);
+                }
+            }
+            p.twist = "many_headers";
+        }
+        12 => {
+            let n = *rng.pick(&[33usize, 64, 100, 256][..]);
+            for j in 0..n {
+                p.headers.push(("x-amz-meta-many".to_string(), format!("{}", (j * 7) % 10).into_bytes()));
+            }
+            p.signed.push("x-amz-meta-many".to_string());
+            p.twist = "many_header_values";
+        }
+        _ => {
+            p.method = rng.pick(&["GET", "HEAD", "OPTIONS", "TRACE", "DELETE", "PATCH", "PROPFIND", "M-SEARCH", "get", "post", "Get"][..]).to_string();
+            p.twist = "method";
+        }
+    }
+}
+
+fn wire_body_len(pairs: &[(Vec<u8>, Vec<u8>)], raw_bom: bool) -> usize {
+    let b = form_encode(pairs);
+    if raw_bom && b.starts_with(b"%EF%BB%BF") {
+        b.len() - 6
+    } else {
+        b.len()
+    }
 }
 
 /// How the request is written on the wire.
@@ -526,6 +786,8 @@ pub fn logical_of(p: &Plan, auth_query: &[(Vec<u8>, Vec<u8>)]) -> Logical {
     if p.form && p.fold {
         query.extend(p.body_query.iter().cloned());
     }
+    // no canonical query lists a parameter named exactly X-Amz-Signature (on either carrier)
+    query.retain(|kv| kv.0 != b"X-Amz-Signature");
     let mut signed_headers: Vec<(String, Vec<Vec<u8>>)> = Vec::new();
     let mut names = p.signed.clone();
     names.sort();
@@ -560,10 +822,31 @@ pub fn form_encode(pairs: &[(Vec<u8>, Vec<u8>)]) -> Vec<u8> {
 
 pub fn wire_body(p: &Plan) -> Vec<u8> {
     if p.form {
-        form_encode(&p.body_query)
+        let b = form_encode(&p.body_query);
+        if p.raw_bom && b.starts_with(b"%EF%BB%BF") {
+            let mut raw = b"\xef\xbb\xbf".to_vec();
+            raw.extend(&b[9..]);
+            return raw;
+        }
+        b
     } else {
         p.body.clone()
     }
+}
+
+/// The parameter list of an Authorization header with empty / blank elements put in (`pattern` > 0).
+pub fn auth_with_empty_elements(alg: &str, params: &[String], pattern: u8) -> String {
+    let list = match pattern % 8 {
+        1 => format!(", {}", params.join(", ")),
+        2 => format!(",,{}", params.join(",")),
+        3 => params.join(", , "),
+        4 => params.join(",,"),
+        5 => format!("{}, ,", params.join(", ")),
+        6 => format!(" , {},,{}", params[0], params[1..].join(" ,  , ")),
+        7 => format!(",{},", params.join(",  ,,")),
+        _ => params.join(", "),
+    };
+    format!("{} {}", alg, list)
 }
 
 /// Sign the plan and spell it on the wire.  `now_offset` is server time minus request time.
@@ -683,10 +966,31 @@ pub fn build(p: &Plan, sp: &Spelling, rng: &mut Rng, now_offset_ns: i128) -> Bui
         }
         query.extend(spell_bytes(v, sp, rng, true));
     }
+    if let Some((n, pos)) = p.empty_components {
+        let amps = vec![b'&'; n];
+        match pos {
+            0 => {
+                let mut q = amps;
+                q.extend(query.iter());
+                query = q;
+            }
+            1 if query.contains(&b'&') => {
+                let k = query.iter().position(|c| *c == b'&').unwrap();
+                let mut q = query[..k].to_vec();
+                q.extend(amps.iter());
+                q.extend(&query[k + 1..]);
+                query = q;
+            }
+            _ => query.extend(amps.iter()),
+        }
+    }
     let mut uri = String::from_utf8(path).unwrap();
     if !query.is_empty() {
         uri.push('?');
         uri.push_str(std::str::from_utf8(&query).unwrap());
+    }
+    if let Some((scheme, authority)) = &p.target {
+        uri = format!("{}://{}{}", scheme, authority, uri);
     }
 
     let mut headers: Vec<(Vec<u8>, Vec<u8>)> = Vec::new();
@@ -713,6 +1017,13 @@ pub fn build(p: &Plan, sp: &Spelling, rng: &mut Rng, now_offset_ns: i128) -> Bui
     }
     if !p.query_carrier {
         let auth = match sp.auth_spacing {
+            _ if p.auth_empty_elements > 0 => {
+                let mut params = vec![format!("Credential={}", credential), format!("SignedHeaders={}", signed_list), format!("Signature={}", signed.signature)];
+                if p.auth_empty_elements >= 8 {
+                    params.rotate_left(1);
+                }
+                auth_with_empty_elements("AWS4-HMAC-SHA256", &params, p.auth_empty_elements)
+            }
             0 => format!("AWS4-HMAC-SHA256 Credential={}, SignedHeaders={}, Signature={}", credential, signed_list, signed.signature),
             1 => format!("AWS4-HMAC-SHA256 Credential={},SignedHeaders={},Signature={}", credential, signed_list, signed.signature),
             2 => format!("  AWS4-HMAC-SHA256   Signature={} ,  Credential={} , SignedHeaders={}  ", signed.signature, credential, signed_list),
@@ -756,7 +1067,7 @@ pub fn build(p: &Plan, sp: &Spelling, rng: &mut Rng, now_offset_ns: i128) -> Bui
         }
         headers = out;
     }
-    let now_ns = p.t as i128 * 1_000_000_000 + now_offset_ns;
+    let now_ns = p.t as i128 * 1_000_000_000 + p.t_frac_ns as i128 + now_offset_ns;
     let wire = Wire {
         method: p.method.clone(),
         uri,
